@@ -497,8 +497,9 @@ class Block(Entity):
             raise NameError("Name already exist. Possible solution is to "
                             "provide a new name when copying destination "
                             "is the same as the source parent")
-        obj_copy = obj._parent._h5group.copy(source=src, dest=self._h5group, name=name, cls=clsname, keep_id=keep_id)
-        return obj_copy.attrs["entity_id"]
+        obj._parent._h5group.copy(source=src, dest=self._h5group, name=name, cls=clsname, keep_id=keep_id)
+        # the name identifies the copy; its id may be shared with the source
+        return name
 
     @property
     def sources(self):
